@@ -365,9 +365,13 @@ def check_binary(ctx, rng, clean):
             if 'unreachable' in label:
                 ctx.event('corruption-with-unreachable-node')
             budget = 600 * (nn + 2) * (nn + 2) + 30000
+            via = 'load' if (ctx.evaluations % 2) else 'constructor'
+            ctx.event('model-built-via-' + via)
+            w['built_via'] = via
             try:
                 with monitors.Steps(limit=budget):
-                    ck = Checker.load(wire, lvs.USER_FNS)
+                    # both documented ways of getting a checker from a binary model
+                    ck = Checker.load(wire, lvs.USER_FNS) if via == 'load' else Checker(bny.LvsModel.parse(wire), lvs.USER_FNS)
                 err = None
             except monitors.BudgetExceeded:
                 ctx.report('loader-does-not-terminate', f'loading exceeded {budget} interpreter events', w)
@@ -431,7 +435,7 @@ def run(ctx):
     clean = check_text(ctx, rng)
     check_binary(ctx, rng, clean)
     need = ['clean-schema-accepted', 'rejected-with-schema-error', 'corruption-breaking', 'corruption-benign', 'rejected-with-model-error',
-            'query-terminated', 'signed-rule-pattern-schema-accepted', 'corruption-with-unreachable-node']
+            'query-terminated', 'signed-rule-pattern-schema-accepted', 'corruption-with-unreachable-node', 'model-built-via-load', 'model-built-via-constructor']
     for k in need:
         ctx.need_event(k)
     ctx.assumptions = ['documented schema error = SemanticError (from compile_lvs or Checker()), documented model error = LvsModelError',
